@@ -1343,10 +1343,10 @@ fn forged_request(rng: &mut Rng, genuine: &[u8], proto: u64, now_s: u64) -> Vec<
 
 fn script_attacker(rng: &mut Rng, _tier: Tier, f: &mut dyn FnMut(&str) -> String) {
     let mut sc = Sc::new(f);
-    let scenario = rng.below(10);
+    let scenario = rng.below(13);
     let max = match scenario {
         3 => 1,
-        6 | 9 => rng.pick(&[1usize, 2]),
+        6 | 9 | 10 => rng.pick(&[1usize, 2]),
         7 => rng.pick(&[1usize, 2, 3]),
         _ => rng.pick(&[2usize, 3]),
     };
@@ -1362,8 +1362,20 @@ fn script_attacker(rng: &mut Rng, _tier: Tier, f: &mut dyn FnMut(&str) -> String
         spec.timeout = 5;
         specs.push(spec);
     }
-    if scenario == 2 || scenario == 7 {
+    if scenario == 2 || scenario == 7 || scenario == 11 || scenario == 12 {
         specs[1].id = specs[0].id; // two tokens for one id
+    }
+    let old_token_expires = scenario == 12 && rng.chance(1, 2);
+    if scenario == 12 {
+        // … sealing different user data; the older one may run out during the scenario
+        if specs[1].ud == specs[0].ud {
+            specs[1].ud = vec![0x67, 0x75, 0x65, 0x73, 0x74];
+            specs[0].ud = vec![0x61, 0x64, 0x6d, 0x69, 0x6e];
+        }
+        if old_token_expires {
+            specs[0].expire = now_s + 1;
+            specs[0].seal_expire = specs[0].expire;
+        }
     }
     let mut cls: Vec<Cl> = vec![];
     for i in 0..3usize {
@@ -1723,6 +1735,130 @@ fn script_attacker(rng: &mut Rng, _tier: Tier, f: &mut dyn FnMut(&str) -> String
                     sc.op("srv-dump 0");
                     sc.op(&format!("cli-dump {}", cls[v].h));
                 }
+            }
+        }
+        10 => {
+            // a full server answers the victim's requests with denials that the path withholds; a seat becomes free,
+            // the retransmitted request succeeds, the victim is connected — and only now the old datagrams of the
+            // handshake phase (denials, possibly a challenge) are delivered: the session stays up on both sides
+            let nfill = max.min(2);
+            let v = 2usize;
+            let mut withheld: Vec<Vec<u8>> = vec![];
+            if rng.chance(1, 2) {
+                // a challenge from before the server filled up, withheld as well
+                if let (_, Some(ch)) = srv_rx(&mut sc, &a[v], &reqs[v]) {
+                    withheld.push(ch);
+                }
+            }
+            for i in 0..nfill {
+                if let (_, Some(ch)) = srv_rx(&mut sc, &a[i], &reqs[i]) {
+                    answer_challenge(&mut sc, cls[i].h, &a[i], &ch, None);
+                }
+            }
+            sc.op("srv-dump 0");
+            if let (_, Some(d)) = srv_rx(&mut sc, &a[v], &reqs[v]) {
+                withheld.push(d);
+            }
+            for _ in 0..rng.range(0, 2) {
+                if let (_, Some(k)) = sc.opd(&format!("cli-upd {} 250000", v)) {
+                    let req = sc.hist[k].bytes.clone();
+                    if let (_, Some(d)) = srv_rx(&mut sc, &a[v], &req) {
+                        withheld.push(d);
+                    }
+                }
+            }
+            // a seat becomes free
+            if rng.chance(1, 2) {
+                sc.op(&format!("srv-disc 0 {}", cls[0].tok.spec.id));
+            } else if let (_, Some(k)) = sc.opd("cli-disc 0") {
+                let d = sc.hist[k].bytes.clone();
+                srv_rx(&mut sc, &a[0], &d);
+            }
+            if let (_, Some(k)) = sc.opd(&format!("cli-upd {} 250000", v)) {
+                let req = sc.hist[k].bytes.clone();
+                if let (_, Some(ch)) = srv_rx(&mut sc, &a[v], &req) {
+                    answer_challenge(&mut sc, cls[v].h, &a[v], &ch, None);
+                }
+            }
+            sc.op("srv-dump 0");
+            // the withheld datagrams arrive late (some of them twice)
+            let n = withheld.len() + rng.below(2) as usize;
+            for j in 0..n {
+                let d = if j < withheld.len() { withheld[j].clone() } else { rng.pick(&withheld) };
+                sc.op(&format!("cli-q {}", v));
+                sc.op(&format!("cli-rx {} {}", v, hex(&d)));
+                sc.op(&format!("cli-q {}", v));
+                sc.op(&format!("srv-q 0 {}", cls[v].tok.spec.id));
+            }
+            sc.op(&format!("cli-dump {}", v));
+        }
+        11 => {
+            // client id X is connected from A; the server's clock runs past X's timeout but `update_client(X)` has not
+            // been called yet (NetcodeServerTransport::update: update, drain the socket, then update_client per id);
+            // in that window a second handshake for X (another token, address B) completes or starts
+            let variant = rng.below(3);
+            let id = cls[0].tok.spec.id;
+            let ch_b = if variant == 0 { srv_rx(&mut sc, &a[1], &reqs[1]).1 } else { None };
+            if let (_, Some(ch)) = srv_rx(&mut sc, &a[0], &reqs[0]) {
+                answer_challenge(&mut sc, cls[0].h, &a[0], &ch, None);
+            }
+            sc.op("srv-dump 0");
+            // token timeout: 5 s
+            let dt = if rng.chance(1, 4) { rng.pick(&[4_999_999u64, 5_000_000]) } else { rng.pick(&[5_000_001u64, 5_400_000, 7_000_000]) };
+            sc.op(&format!("srv-upd 0 {}", dt));
+            match ch_b {
+                Some(ch) => {
+                    answer_challenge(&mut sc, cls[1].h, &a[1], &ch, None);
+                }
+                None => {
+                    if let (_, Some(ch)) = srv_rx(&mut sc, &a[1], &reqs[1]) {
+                        answer_challenge(&mut sc, cls[1].h, &a[1], &ch, None);
+                    }
+                }
+            }
+            sc.op("srv-dump 0");
+            sc.op(&format!("srv-q 0 {}", id));
+            sc.op(&format!("srv-pay 0 {} 6f6b", id));
+            // now the sessions are updated
+            let (_, e) = sc.opd(&format!("srv-updc 0 {}", id));
+            if let Some(k) = e {
+                let d = sc.hist[k].bytes.clone();
+                sc.op(&format!("cli-rx 0 {}", hex(&d)));
+            }
+            sc.op("srv-dump 0");
+            sc.op(&format!("srv-q 0 {}", id));
+            // B knocks again (it may get in once the old session has been reaped)
+            if let (_, Some(k)) = sc.opd("cli-upd 1 250000") {
+                let req = sc.hist[k].bytes.clone();
+                if let (_, Some(ch)) = srv_rx(&mut sc, &a[1], &req) {
+                    answer_challenge(&mut sc, cls[1].h, &a[1], &ch, None);
+                }
+            }
+            sc.op(&format!("srv-updc 0 {}", id));
+        }
+        12 => {
+            // two tokens of ONE client id sealing different user data, both owned by the peer and both used from one
+            // address; the challenge obtained with the first token is echoed in the handshake opened with the second
+            // one (sealed under the second token's key): no connection — and never one reported with the first
+            // token's user data
+            let id = cls[0].tok.spec.id;
+            let (_, ch1) = srv_rx(&mut sc, &a[0], &reqs[0]);
+            if old_token_expires {
+                sc.op("srv-upd 0 2000001");
+            }
+            let (_, ch2) = srv_rx(&mut sc, &a[0], &reqs[1]);
+            sc.op("srv-dump 0");
+            if let (Some(ch1), Some(ch2)) = (ch1, ch2) {
+                if let Some(body1) = challenge_body(&ch1, srv.proto, &cls[0].tok.spec.s2c) {
+                    let forged = forge(3, rng.pick(&[1u64, 2, 9]), srv.proto, &cls[1].tok.spec.c2s, &body1);
+                    srv_rx(&mut sc, &a[0], &forged);
+                    sc.op("srv-dump 0");
+                    sc.op(&format!("srv-q 0 {}", id));
+                }
+                // the honest continuation of the second handshake
+                answer_challenge(&mut sc, cls[1].h, &a[0], &ch2, None);
+                sc.op("srv-dump 0");
+                sc.op(&format!("srv-q 0 {}", id));
             }
         }
         4 => {
@@ -2229,7 +2365,7 @@ fn script_wire(rng: &mut Rng, tier: Tier, f: &mut dyn FnMut(&str) -> String) {
 // profile 0: nc-regress — one fixed op list per repaired defect (deterministic, run on every check)
 // =============================================================================================
 
-const REGRESS_CASES: usize = 22;
+const REGRESS_CASES: usize = 25;
 
 fn regress_script(case: usize, f: &mut dyn FnMut(&str) -> String) {
     let mut rng = Rng::new(0xD1CE + case as u64);
@@ -2240,7 +2376,7 @@ fn regress_script(case: usize, f: &mut dyn FnMut(&str) -> String) {
     let proto = 7u64;
     let hosts = SRV_A.to_string();
     let max = match case {
-        7 | 19 => 1,
+        7 | 19 | 22 => 1,
         13 => 3,
         _ => 2,
     };
@@ -2862,6 +2998,121 @@ fn regress_script(case: usize, f: &mut dyn FnMut(&str) -> String) {
                 }
             }
         }
+        // a full server (one seat) denies the newcomer twice, the denials are withheld; the seat becomes free, the third
+        // request succeeds; the withheld denials reach the CONNECTED client: the session stays up on both sides
+        22 => {
+            fast_connect(&mut sc, &cls[0]);
+            let mut withheld: Vec<Vec<u8>> = vec![];
+            for j in 0..2 {
+                if let (_, Some(k)) = sc.opd(&format!("cli-upd 1 {}", if j == 0 { 0 } else { 250000 })) {
+                    let req = sc.hist[k].bytes.clone();
+                    if let (_, Some(k)) = sc.opd(&format!("srv-rx 0 {} {}", cls[1].addr, hex(&req))) {
+                        withheld.push(sc.hist[k].bytes.clone());
+                    }
+                }
+            }
+            if let (_, Some(k)) = sc.opd("cli-disc 0") {
+                let d = sc.hist[k].bytes.clone();
+                sc.op(&format!("srv-rx 0 {} {}", cls[0].addr, hex(&d)));
+            }
+            sc.op("srv-dump 0");
+            if let (_, Some(k)) = sc.opd("cli-upd 1 250000") {
+                let req = sc.hist[k].bytes.clone();
+                if let (_, Some(k)) = sc.opd(&format!("srv-rx 0 {} {}", cls[1].addr, hex(&req))) {
+                    let chal = sc.hist[k].bytes.clone();
+                    answer_challenge(&mut sc, 1, &cls[1].addr.clone(), &chal, None);
+                }
+            }
+            sc.op("srv-dump 0");
+            for d in withheld.iter() {
+                sc.op("cli-q 1");
+                sc.op(&format!("cli-rx 1 {}", hex(d)));
+                sc.op("cli-q 1");
+                sc.op("srv-q 0 41");
+            }
+            // the session still works
+            if let (_, Some(k)) = sc.opd("cli-pay 1 7374696c6c") {
+                let d = sc.hist[k].bytes.clone();
+                sc.op("note expect-payload");
+                sc.op(&format!("srv-rx 0 {} {}", cls[1].addr, hex(&d)));
+            }
+            if let (_, Some(k)) = sc.opd("srv-pay 0 41 7570") {
+                let d = sc.hist[k].bytes.clone();
+                sc.op("note expect-payload");
+                sc.op(&format!("cli-rx 1 {}", hex(&d)));
+            }
+            sc.op("cli-dump 1");
+        }
+        // client id 40 is connected; the clock passes its 5 s timeout; before update_client(40) runs, a second
+        // handshake for id 40 (another token, another address) completes: the id never occupies two seats
+        23 | 24 => {
+            let mut spec = base_spec(rng, 40, proto, key, 5, &hosts); // same client id as cls[0]
+            spec.expire = 35;
+            spec.seal_expire = 35;
+            spec.timeout = 5;
+            spec.ud = vec![0xb0; 256];
+            let b = a4(10, 9, 0, 50, 4950);
+            if let Some(cb) = new_client(&mut sc, 5, &b, &spec, 5_000_000) {
+                if case == 23 {
+                    let mut chal_b: Option<Vec<u8>> = None;
+                    if let (_, Some(k)) = sc.opd("cli-upd 5 0") {
+                        let req = sc.hist[k].bytes.clone();
+                        if let (_, Some(k)) = sc.opd(&format!("srv-rx 0 {} {}", cb.addr, hex(&req))) {
+                            chal_b = Some(sc.hist[k].bytes.clone());
+                        }
+                    }
+                    fast_connect(&mut sc, &cls[0]);
+                    sc.op("srv-dump 0");
+                    sc.op("srv-upd 0 5000001");
+                    // B's delayed response, then (again in the window) a complete second exchange
+                    if let Some(ch) = chal_b {
+                        answer_challenge(&mut sc, 5, &cb.addr, &ch, None);
+                    }
+                    sc.op("srv-dump 0");
+                    sc.op("srv-q 0 40");
+                    if let (_, Some(k)) = sc.opd("cli-upd 5 250000") {
+                        let req = sc.hist[k].bytes.clone();
+                        if let (_, Some(k)) = sc.opd(&format!("srv-rx 0 {} {}", cb.addr, hex(&req))) {
+                            let ch = sc.hist[k].bytes.clone();
+                            answer_challenge(&mut sc, 5, &cb.addr, &ch, None);
+                        }
+                    }
+                    sc.op("srv-dump 0");
+                    sc.op("srv-q 0 40");
+                    sc.op("srv-pay 0 40 6f6b");
+                    sc.op("srv-updc 0 40");
+                    sc.op("srv-dump 0");
+                    sc.op("srv-q 0 40");
+                } else {
+                    // case 24 — two tokens of client id 40 with different user data, both used from one address: the
+                    // challenge obtained with the first is echoed (under the second token's key) in the handshake
+                    // opened with the second; no connection, in particular none reported with the first one's user data
+                    let a = cls[0].addr.clone();
+                    let mut chals: Vec<Vec<u8>> = vec![];
+                    for h in [0u64, 5] {
+                        if let (_, Some(k)) = sc.opd(&format!("cli-upd {} 0", h)) {
+                            let req = sc.hist[k].bytes.clone();
+                            if let (_, Some(k)) = sc.opd(&format!("srv-rx 0 {} {}", a, hex(&req))) {
+                                chals.push(sc.hist[k].bytes.clone());
+                            }
+                        }
+                    }
+                    sc.op("srv-dump 0");
+                    if chals.len() == 2 {
+                        if let Some(body1) = challenge_body(&chals[0], proto, &cls[0].tok.spec.s2c) {
+                            let forged = forge(3, 1, proto, &cb.tok.spec.c2s, &body1);
+                            sc.op(&format!("srv-rx 0 {} {}", a, hex(&forged)));
+                            sc.op("srv-dump 0");
+                            sc.op("srv-q 0 40");
+                        }
+                        // the genuine response of the second handshake connects — with the second token's user data
+                        answer_challenge(&mut sc, 5, &a, &chals[1], Some("expect-connected"));
+                        sc.op("srv-dump 0");
+                        sc.op("srv-q 0 40");
+                    }
+                }
+            }
+        }
         // sequence 2^64-1 (the window's EMPTY sentinel) from the owner of a session
         _ => {
             fast_connect(&mut sc, &cls[0]);
@@ -3361,7 +3612,7 @@ pub fn profiles() -> Vec<Profile> {
         },
         Profile {
             name: "nc-regress",
-            props: &["C07", "C17", "C05", "C10", "C18", "C16", "C19", "C04"],
+            props: &["C07", "C17", "C05", "C10", "C18", "C16", "C19", "C04", "C20"],
             cases: |_| REGRESS_CASES,
             new_world,
             script: |_, _, _| {},
@@ -3442,7 +3693,7 @@ pub fn profiles() -> Vec<Profile> {
         },
         Profile {
             name: "nc-attacker",
-            props: &["C05", "C10", "C07", "C19"],
+            props: &["C05", "C10", "C07", "C19", "C20"],
             cases: |t| if t == Tier::Thorough { 3000 } else { 300 },
             new_world,
             script: script_attacker,
@@ -4083,10 +4334,14 @@ fn oracle_connect_justified(ops: &[String], outs: &[String]) -> Option<OracleFai
                         return fail(i, "connected-other-address", format!("datagram from {} connected {}", addr, o[2]));
                     }
                     let cfg = servers.get(&s)?;
+                    // the handshake that is being completed is the one opened with the token under whose
+                    // client-to-server key this response is sealed (keys are per token)
+                    let sealed_under = |k: &TokInfo| input.map(|d| matches!(try_open(d, cfg.proto, &k.c2s), Some((3, _, _)))).unwrap_or(false);
                     let justified = uses.iter().any(|(us, ti, ua, at_s, answered)| {
                         let k = &tokens[*ti];
                         *us == s
                             && *ua == addr
+                            && sealed_under(k)
                             && *answered
                             && k.id == id
                             && k.ud == ud
@@ -4100,7 +4355,7 @@ fn oracle_connect_justified(ops: &[String], outs: &[String]) -> Option<OracleFai
                     if !justified {
                         let why = if !tokens.iter().any(|k| k.id == id) {
                             "no-token-for-id"
-                        } else if !tokens.iter().any(|k| k.id == id && k.ud == ud) {
+                        } else if !tokens.iter().any(|k| k.id == id && k.ud == ud) || tokens.iter().any(|k| k.id == id && k.ud != ud && sealed_under(k)) {
                             "user-data-of-another-token"
                         } else {
                             "token-not-valid-for-this-address-or-time"
@@ -4667,6 +4922,84 @@ fn oracle_timeout_not_postponed(ops: &[String], outs: &[String]) -> Option<Oracl
     })
 }
 
+/// C20 ("an on-path party … reorders, replays … datagrams, and such interference never disconnects an otherwise healthy
+/// session other than through timeouts"), netcode client, for late handshake-phase datagrams. Judged pattern, all of it
+/// read off the trace: `cli-q h` (connected=1) · `cli-rx h <d>` · `cli-q h` with nothing but notes in between (so no time
+/// passes), where <d> announces packet type ConnectionDenied or Challenge, was emitted by a server op BEFORE the op that
+/// reported `connected <id of h>`, and that session has not been reported `disconnected` since. Then the second
+/// `cli-q h` still says connected=1 (and nothing is surfaced). Disconnect / keep-alive / payload datagrams are not judged.
+fn oracle_stale_handshake_harmless(ops: &[String], outs: &[String]) -> Option<OracleFail> {
+    let mut cli_id: HashMap<String, u64> = HashMap::new();
+    let mut srv_emitted: HashMap<Vec<u8>, usize> = HashMap::new();
+    let mut session_start: HashMap<u64, usize> = HashMap::new();
+    let n = ops.len().min(outs.len());
+    walk(ops, outs, &mut |i, t, out, input, em| {
+        if t.len() < 2 {
+            return None;
+        }
+        if t[0] == "cli-new" && t.len() == 4 {
+            cli_id.remove(t[1]);
+            if out == "ok" {
+                if let Some(b) = p_hex(t[3]) {
+                    if b.len() >= 8 {
+                        cli_id.insert(t[1].to_string(), u64::from_le_bytes(b[..8].try_into().unwrap()));
+                    }
+                }
+            }
+        }
+        if t[0].starts_with("srv-") {
+            if let Some((_, d)) = em {
+                srv_emitted.entry(d.clone()).or_insert(i);
+            }
+            let o = toks(out);
+            if o.len() >= 3 && o[0] == "connected" {
+                if let Some(id) = p_u64(o[1]) {
+                    session_start.insert(id, i);
+                }
+            }
+            if o.len() >= 3 && o[0] == "disconnected" {
+                if let Some(id) = p_u64(o[1]) {
+                    session_start.remove(&id);
+                }
+            }
+        }
+        if t[0] == "cli-rx" && t.len() == 3 && i + 1 < n {
+            let d = input?;
+            let ty = d.first().map(|b| b & 0xf)?;
+            if ty != 1 && ty != 2 {
+                return None;
+            }
+            let q = format!("cli-q {}", t[1]);
+            let mut b = i;
+            while b > 0 && ops[b - 1].starts_with("note ") {
+                b -= 1;
+            }
+            if b == 0 || ops[b - 1] != q || ops[i + 1] != q || field(&outs[b - 1], "connected") != Some("1") {
+                return None;
+            }
+            let after = &outs[i + 1];
+            if out == "panic" || out == "dead" || after == "panic" || after == "dead" || after == "bad-op" {
+                return None;
+            }
+            let id = cli_id.get(t[1])?;
+            let start = session_start.get(id)?;
+            let emitted = srv_emitted.get(d)?;
+            if emitted < start && (field(after, "connected") != Some("1") || out != "none") {
+                let kind = if ty == 1 { "denied" } else { "challenge" };
+                return fail(
+                    i + 1,
+                    &format!("stale-handshake-datagram-ended-session:{}", kind),
+                    format!(
+                        "client {} (id {}) was connected (session reported at op {}); a {} datagram the server had emitted at op {}, before that session started, was delivered late: `{}` / `{}`",
+                        t[1], id, start, kind, emitted, trunc_s(out, 30), trunc_s(after, 90)
+                    ),
+                );
+            }
+        }
+        None
+    })
+}
+
 /// C18 (progress): where the script knows a handshake must complete, it does
 fn oracle_expect_connected(ops: &[String], outs: &[String]) -> Option<OracleFail> {
     for i in 0..ops.len() {
@@ -5074,6 +5407,7 @@ pub fn oracles() -> Vec<Oracle> {
         Oracle { prop: "C16", name: "nc-wire-roundtrip", engines: &["nc-wire"], check: oracle_roundtrip },
         Oracle { prop: "C04", name: "nc-payloads-authentic-once", engines: &["nc-session", "nc-handshake", "nc-hostile", "nc-known", "nc-regress", "nc-failover"], check: oracle_payloads },
         Oracle { prop: "C04", name: "nc-window-once", engines: &["nc-window"], check: oracle_window_once },
+        Oracle { prop: "C20", name: "nc-stale-handshake-harmless", engines: &["nc-attacker", "nc-regress"], check: oracle_stale_handshake_harmless },
         Oracle { prop: "C18", name: "nc-handshake-completes", engines: &["nc-regress", "nc-attacker"], check: oracle_expect_connected },
         Oracle { prop: "C18", name: "nc-lossless-phase-connects", engines: &["nc-failover", "nc-regress"], check: oracle_expect_up },
         Oracle { prop: "C18", name: "nc-failover-patient", engines: &["nc-failover", "nc-handshake", "nc-regress", "nc-session", "nc-wire"], check: oracle_failover_patient },
